@@ -28,6 +28,11 @@ Proof.
   - first [rewrite Z.geb_leb in H; apply Z.leb_gt in H | rewrite Z.gtb_ltb in H; apply Z.ltb_ge in H]; lia.
 Qed.
 
+(* the test is called as eq(as[i-1], bs[j-1]) *)
+Lemma eq_args_ok : forall {A} (a b : A),
+  pick2 (lcs_eq_arg0 0 1) a b = Some a /\ pick2 (lcs_eq_arg1 0 1) a b = Some b.
+Proof. intros. split; reflexivity. Qed.
+
 Section LcsProofs.
   Variable T : Type.
   Variable eqb : T -> T -> bool.
@@ -143,7 +148,7 @@ Section LcsProofs.
       replace (Z.of_nat (S j) - 1) with (Z.of_nat j) by lia.
       rewrite !znth_nat.
       destruct (nth_error_some_lt xs k Hk') as [a Ha]. destruct (nth_error_some_lt ys j Hj) as [b Hb].
-      rewrite Ha, Hb.
+      rewrite Ha, Hb. destruct (eq_args_ok a b) as [-> ->].
       destruct (nth_error_some_lt p k ltac:(lia)) as [d Hd].
       destruct (nth_error_some_lt p (S k) ltac:(lia)) as [u Hu].
       destruct (nth_error_some_lt c k ltac:(lia)) as [l Hl].
